@@ -336,7 +336,9 @@ def run_query(pid, q, wdir, tier, findings):
     # witness twin: must be able to reach the end of the harness (guards against vacuous passes)
     wit = None; wr = None
     for sv, cap in ((SOLVERS['minisat'], min(20, timeout)), (SOLVERS['kissat'], timeout)):
-        wr = sh(cbmc_cmd(q, outd, us + sv + ['-DVP_WITNESS', '--json-ui', '--property', 'main.assertion.1']), timeout=cap, mem_gb=mem)
+        # reachability only: no pointer/bounds instrumentation, no unwinding assertions (paths beyond the bound are cut, which can only lose witnesses)
+        wcmd = [c for c in cbmc_cmd(q, outd, us + sv + ['-DVP_WITNESS', '--json-ui', '--property', 'main.assertion.1']) if c not in ('--pointer-check', '--bounds-check', '--unwinding-assertions')]
+        wr = sh(wcmd, timeout=cap, mem_gb=mem)
         wres, wstatus = parse_results(wr['out'])
         if wres is not None:
             for p in wres:
@@ -537,6 +539,46 @@ def write_evidence(pid, tier, seed, recs, qs, violations, known, problems, wall,
     os.makedirs(os.path.join(ROOT, 'evidence'), exist_ok=True)
     json.dump(ev, open(os.path.join(ROOT, 'evidence', pid + '.json'), 'w'), indent=1)
 
+def selftest(pid, only=None, nvec=6, jobs=8):
+    """translator validation: for every distinct (harness, defs, entry, params) of the quick tier build (a) the generated C with gcc
+    and (b) the harness natively with clang++, run both on the same input vectors and compare outcomes (VP_DONE / VP_CHECK_FAIL label /
+    VP_ASSUME_FAILED).  A difference is a fault of the translator or the runtime model, never a property violation."""
+    import random
+    mod = load_prop(pid); seed = int(os.environ.get('VERIF_SEED', '0') or 0)
+    qs = [q for q in mod.queries('quick', seed) if q.tier == 'quick' and (not only or re.search(only, q.name))]
+    seen = set(); uniq = []
+    for q in qs:
+        k = (q.src, json.dumps(q.defs, sort_keys=True), q.entry)
+        if k in seen: continue
+        seen.add(k); uniq.append(q)
+    wdir = os.path.join(WORK, 'self_%s_%d' % (pid, os.getpid())); shutil.rmtree(wdir, ignore_errors=True); os.makedirs(wdir)
+    rnd = random.Random(seed + 12345)
+    vecs = [[0] * 400, [1] * 400, [255] * 400] + [[rnd.choice([0, 1, 2, 3, 7, 128, 255, rnd.getrandbits(8), rnd.getrandbits(16), rnd.getrandbits(32)]) for _ in range(400)] for _ in range(nvec)]
+    def one(q):
+        try:
+            tud = build_tu(q, wdir); outd = translate(q, tud)
+            exe_n = build_native(q.src, q.defs, q.rt, os.path.join(tud, 'native'))
+            exe_g = os.path.join(outd, 'gen_' + q.entry)
+            if not os.path.exists(exe_g):
+                r = sh(['gcc', '-O0', '-w', '-I', os.path.join(ROOT, 'rt'), '-DENTRY=F_' + q.entry, os.path.join(outd, q.entry + '.c'), os.path.join(ROOT, 'tools', 'diffmain.c')] + rt_files(q) + ['-lm', '-o', exe_g], timeout=600)
+                if r['rc'] != 0: return (q.name, 'gen-build-error', r['err'][-300:])
+        except BuildError as e: return (q.name, 'build-error', str(e)[-300:])
+        diffs = 0
+        for v in vecs:
+            inp = exe_g + '.in'; open(inp, 'w').write('\n'.join(map(str, v)))
+            env = dict(os.environ, VP_PARAMS=','.join(str(int(p)) for p in q.params), ASAN_OPTIONS='detect_leaks=0')
+            a = sh([exe_g, inp], timeout=60, env=env); b = sh([exe_n, q.entry, inp], timeout=60, env=env)
+            la = (re.findall(r'VP_\w+[^\n]*', a['out']) or ['?'])[-1]; lb = (re.findall(r'VP_\w+[^\n]*', b['out']) or ['?'])[-1]
+            if la != lb: diffs += 1; last = (la, lb)
+        return (q.name, 'ok' if diffs == 0 else 'DIFF %d/%d %r' % (diffs, len(vecs), last), '')
+    bad = 0
+    with ThreadPoolExecutor(max_workers=jobs) as ex:
+        for name, st, msg in ex.map(one, uniq):
+            if st != 'ok': bad += 1; print('%-60s %s %s' % (name, st, msg.replace('\n', ' | ')))
+    print('selftest %s: %d distinct harness instances, %d input vectors each, %d disagreements' % (pid, len(uniq), len(vecs), bad))
+    shutil.rmtree(wdir, ignore_errors=True)
+    return 2 if bad else 0
+
 def replay(path):
     r = json.load(open(path))
     if r.get('kind') == 'build_error':
@@ -562,10 +604,12 @@ def main():
     c = sub.add_parser('check'); c.add_argument('pid'); c.add_argument('--tier', default=os.environ.get('VERIF_TIER', 'quick'))
     c.add_argument('--only'); c.add_argument('--keep', action='store_true'); c.add_argument('-j', type=int); c.add_argument('--list', action='store_true')
     r = sub.add_parser('replay'); r.add_argument('path')
+    st = sub.add_parser('selftest'); st.add_argument('pid'); st.add_argument('--only'); st.add_argument('-j', type=int, default=8)
     sub.add_parser('setup')
     a = ap.parse_args()
     if a.cmd == 'check': sys.exit(check(a.pid, a.tier, a.only, a.keep, a.j, a.list))
     if a.cmd == 'replay': sys.exit(replay(a.path))
+    if a.cmd == 'selftest': sys.exit(selftest(a.pid, a.only, jobs=a.j))
     if a.cmd == 'setup':
         for t in ('cbmc', CLANG, 'kissat'):
             if not shutil.which(t): print('missing tool', t); sys.exit(1)
